@@ -24,6 +24,36 @@ def _collect(results, tags):
     return rows
 
 
+class _Limit(object):
+    """wall-clock limit around calls that run the code under test in this process (witnesses, replays, bounded searches): a call
+    that does not come back must not hang the check; the caller treats the TimeoutError like any other failure of that step"""
+
+    def __init__(self, seconds):
+        self.seconds = seconds
+
+    def __enter__(self):
+        import signal
+
+        def on_alarm(signum, frame):
+            raise TimeoutError('no result within %d s' % self.seconds)
+        try:
+            self.old = signal.signal(signal.SIGALRM, on_alarm)
+            signal.alarm(self.seconds)
+        except (ValueError, AttributeError):
+            self.old = None
+        return self
+
+    def __exit__(self, *exc):
+        import signal
+        try:
+            signal.alarm(0)
+            if self.old is not None:
+                signal.signal(signal.SIGALRM, self.old)
+        except (ValueError, AttributeError):
+            pass
+        return False
+
+
 def check_property(pid, tier, seed):
     from contracts import registry
     import dynetx
@@ -43,7 +73,11 @@ def check_property(pid, tier, seed):
     for f in kf.get('findings', []):
         if pid not in f.get('properties', [f.get('property')]):
             continue
-        still = findings.witness_still_fails(f)
+        try:
+            with _Limit(120):
+                still = findings.witness_still_fails(f)
+        except TimeoutError:
+            still = True            # (the witness did not come back: the finding is certainly not repaired)
         if still:
             msg = 'KNOWN-FINDING: property=%s %s' % (pid, f['what'])
             if msg not in known_printed:
@@ -161,12 +195,14 @@ def check_property(pid, tier, seed):
             probe = mk(None)
             if not hasattr(probe, 'replay_model'):
                 # no model concretisation for this contract: bounded search on the real function, if it offers one
-                rep, cx_info = (probe.search_real(eng), {'search': 'bounded search on the real function'}) if hasattr(probe, 'search_real') else (None, {})
+                with _Limit(300 if tier == 'quick' else 900):
+                    rep, cx_info = (probe.search_real(eng), {'search': 'bounded search on the real function'}) if hasattr(probe, 'search_real') else (None, {})
                 if rep is not None:
                     rep['clause'] = name
             else:
-                rep, cx_info = find_counterexample(eng, mk, u['variant'], name, ns=(1, 2) if tier == 'quick' else (1, 2, 3),
-                                                   log=lambda s: None, budget_s=150 if tier == 'quick' else 600)
+                with _Limit(400 if tier == 'quick' else 1500):
+                    rep, cx_info = find_counterexample(eng, mk, u['variant'], name, ns=(1, 2) if tier == 'quick' else (1, 2, 3),
+                                                       log=lambda s: None, budget_s=150 if tier == 'quick' else 600)
             entry['counter_model_search'] = cx_info
         except Exception:
             entry['triage_error'] = traceback.format_exc()[-600:]
